@@ -876,6 +876,8 @@ C16_PARTS = [
     {"basename": "app"}, {"basename": ""}, {"basename": "my.prog"}, {"basename": "a_r1", "discr": "d1"},
     {"basename": "", "discr": "only"}, {"basename": "app", "discr": "foo_bar", "suffix": "trc"},
     {"basename": "app", "suffix": "-"}, {"basename": "", "suffix": "-"}, {"basename": "x", "discr": "7", "suffix": "-"},
+    # parts that end with the separator character: the separator is written nevertheless
+    {"basename": "svc_"}, {"basename": "app", "discr": "d_"},
 ]
 C16_SELS = [{"plain": True}, {"plain": True, "cur": True, "gz": True}, {"plain": False, "gz": True},
             {"plain": False, "cur": True}, {"plain": False}, {"plain": True, "custom": "rNOW"}]
@@ -1003,7 +1005,7 @@ def C16(tier, seed):
                "events_judged": res["events"], "evaluations": res["scenarios"],
                "distinct_nontrivial": len({json.dumps([s["cfg"], s["steps"]], sort_keys=True) for s in scens}),
                "rule": "behaviours of the bounded Flw model (cleanup/compression/restarts; age rotation with a moving clock) "
-                       "decorated with 9 name-part combinations (basename given/empty/dotted, discriminant, suffix "
+                       "decorated with 11 name-part combinations (basename given/empty/dotted, discriminant, suffix "
                        "given/none), a symlink, and existing_log_files queries with 6 selectors after random steps; random "
                        "histories incl. non-rotating files with start time; FileSpec::try_from over a path catalogue "
                        "(bare name, ./x, nested, no extension, dot files, several dots, absolute, spaces, non-ASCII)",
